@@ -1,5 +1,6 @@
 import IxpeVerif.Model.EventList
 import IxpeVerif.Props.C05
+import IxpeVerif.Lemmas.ImpTie
 /-!
 # C04 — simulated event lists are temporally well-formed (core Lean only)
 
@@ -176,5 +177,24 @@ theorem split_time_spec (t : Int) :
 /-- non-vacuity / regression example (on a sorted list, `mergeSort` does not reduce in the kernel): dead time 3 keeps
 the events at 1 and 5 and drops those at 2 and 7 -/
 example : (veto 3 [⟨1,1,true,2⟩, ⟨2,0,true,3⟩, ⟨5,0,true,1⟩, ⟨7,1,true,5⟩]).map (·.tag) = [2, 1] := by decide
+
+/-! ### T-tie: the dead-time loop regenerated from the source (`Gen/Imp.lean`) -/
+
+/-- trimming the event list with the mask computed by the generated `apply_dead_time` (the `for i in range(1, n)` loop of the source) is the
+sequential non-paralysable veto of the model -/
+theorem gen_apply_dead_time_eq_model (rows : List Row) (dead : Int) :
+    Np.compress (Gen.Imp.apply_dead_time (rows.map (·.time)) dead) rows = veto dead rows := ImpTie.gen_apply_dead_time_eq_model rows dead
+
+/-- **consecutive recorded events are at least one dead time apart, on the current source** -/
+theorem gen_dead_time_spaced (rows : List Row) (dead : Int) :
+    Spaced dead (Np.compress (Gen.Imp.apply_dead_time (rows.map (·.time)) dead) rows) := by
+  rw [gen_apply_dead_time_eq_model]; exact veto_spaced dead rows
+
+/-- the trimmed list is a sublist of the input: nothing is reordered or invented by the veto -/
+theorem gen_dead_time_sublist (rows : List Row) (dead : Int) :
+    (Np.compress (Gen.Imp.apply_dead_time (rows.map (·.time)) dead) rows).Sublist rows := by
+  rw [gen_apply_dead_time_eq_model]; exact veto_sublist dead rows
+
+example : Gen.Imp.apply_dead_time [0, 3, 5, 11, 12, 30] 5 = [true, false, true, true, false, true] ∧ Gen.Imp.apply_dead_time [] 5 = [] := by decide
 
 end EvL
